@@ -355,6 +355,7 @@ struct Dumper {
     json::Array Ps;
     for (const ParmVarDecl *P : FD->parameters()) {
       json::Object PO; PO["name"] = P->getName().str(); PO["type"] = typeInfo(P->getType());
+      if (P->getOriginalType() != P->getType()) PO["otype"] = typeInfo(P->getOriginalType());
       Ps.push_back(std::move(PO));
     }
     F["params"] = std::move(Ps);
